@@ -3,7 +3,6 @@ package logr
 import (
 	"errors"
 	"fmt"
-	"log"
 	"os"
 	"path/filepath"
 	"strings"
@@ -46,7 +45,8 @@ func (l Logr) AddAgentInput(AgentType, AgentID, User, TaskID, Input string, time
 
 	f, err := os.OpenFile(DemonLogFile, os.O_APPEND|os.O_CREATE|os.O_WRONLY, 0644)
 	if err != nil {
-		log.Fatal(err)
+		logger.Error("Failed to open File [" + DemonLogFile + "]: " + err.Error())
+		return
 	}
 
 	InputString = fmt.Sprintf("\n[Time: %v] [User: %v] [TaskID: %v] %v => %v\n", time, User, TaskID, AgentType, Input)
@@ -85,7 +85,8 @@ func (l Logr) AddAgentRaw(AgentID, Raw string) {
 
 	f, err := os.OpenFile(DemonLogFile, os.O_APPEND|os.O_CREATE|os.O_WRONLY, 0644)
 	if err != nil {
-		log.Fatal(err)
+		logger.Error("Failed to open File [" + DemonLogFile + "]: " + err.Error())
+		return
 	}
 
 	_, err = f.Write([]byte(Raw))
@@ -122,7 +123,8 @@ func (l Logr) DemonAddOutput(DemonID string, Output map[string]string, time stri
 
 	f, err := os.OpenFile(DemonLogFile, os.O_APPEND|os.O_CREATE|os.O_WRONLY, 0644)
 	if err != nil {
-		log.Fatal(err)
+		logger.Error("Failed to open File [" + DemonLogFile + "]: " + err.Error())
+		return
 	}
 
 	var OutputString string
